@@ -123,7 +123,7 @@ def run(ctx, ck) -> None:
             Rt = pol.matrix(pol.make(pol.rott, a), kind, 'Rt')
             n += 1
             ck.expect('T4', Rt == R.T, f'{pol.rott.qual}.mv', 'the hand-written transposed rotation is the matrix transpose of the rotation, for all angles',
-                      f'QURotationTransposeOperator.mv denotes {Rt}, the transpose of the rotation is {R.T}', instance=f'kind {L}')
+                      f'QURotationTransposeOperator.mv denotes {Rt}, the transpose of the rotation is {R.T}', instance=f'kind {L}', semantic=True)  # exact matrices derived from the code
         except LossyCoefficient as exc:
             ck.incomplete('T4', f'{pol.rott.qual}.mv', f'the exact matrices are not defined for every data dtype: {exc}', instance=f'kind {L}')
         except (NonLinear, InterpRaise) as exc:
